@@ -295,13 +295,15 @@ pub fn check_sequence(rt: &tokio::runtime::Runtime, c: &DriverCfg, seq: &[Rpc], 
 }
 
 pub fn worker(wi: usize, wn: usize, tier: &str) {
-    let depth: usize = std::env::var("C10_DEPTH").ok().and_then(|s| s.parse().ok()).unwrap_or(3);
+    let base_depth: usize = std::env::var("C10_DEPTH").ok().and_then(|s| s.parse().ok()).unwrap_or(3);
     let rt = tokio::runtime::Builder::new_multi_thread().worker_threads(1).max_blocking_threads(4).enable_all().build().unwrap();
     let alpha = alphabet();
     let mut st = Stats::default();
     let metrics: Vec<&str> = if tier == "thorough" { vec!["euclidean", "cosine"] } else { vec!["euclidean"] };
     let mut idx = 0usize;
     for m in metrics {
+        // thorough: one level deeper for the first metric (46^4 sequences)
+        let depth = if tier == "thorough" && m == "euclidean" && std::env::var("C10_DEPTH").is_err() { base_depth + 1 } else { base_depth };
         let c = cfg(m);
         let mut memo: HashMap<String, (Vec<Value>, Vec<Value>)> = HashMap::new();
         for first in 0..alpha.len() {
@@ -452,7 +454,7 @@ pub fn run(tier: &str, replay: Option<&str>) -> i32 {
         }
         rep.report_bag(&r["violations"]);
     }
-    let depth: usize = std::env::var("C10_DEPTH").ok().and_then(|s| s.parse().ok()).unwrap_or(3);
+    let depth: usize = std::env::var("C10_DEPTH").ok().and_then(|s| s.parse().ok()).unwrap_or(if tier == "thorough" { 4 } else { 3 });
     let n = alphabet().len();
     ev.set("states", states.len() as u64);
     ev.set("transitions", tot["calls"]);
